@@ -7,6 +7,7 @@
 import Jb.Model.Label
 import Jb.Model.Engine
 import Mathlib.Tactic.Linarith
+import Jb.Proofs.SynthBridge2
 
 set_option linter.unusedSectionVars false
 
@@ -124,5 +125,18 @@ example : loadLines (α := Int) (L := Nat)
 
 example : loadLines (α := Int) (L := Nat) (fun _ => some 1) (fun _ => some 7) 10 [[49, 32, 50]] = .error .missingLabel := by
   decide
+
+/-! ### for the whole library (`Jb/Proofs/SynthBridge2.lean`) -/
+
+/-- **C17 from the voice files: blank lines do not matter.** Loading label lines, filling the time gaps and synthesizing
+    gives the same outcome with all blank lines removed — for every voice set, weights, setter history, float / label
+    parsers and rate. -/
+theorem library_blank_lines_ignored {K : Type} [Field K] [LinearOrder K] [IsStrictOrderedRing K] [FloorRing K]
+    [Transc K] [Consts K] [MlpgConsts K] [FromFile K] (fx : Fix) (big : K)
+    (voices : List Hts.ParsedVoice) (iw : IW K) (ops : List (CondOp K)) (f : Condition K → Bool)
+    (parseF : List Nat → Option K) (parseL : List Nat → Option (List Char)) (rate : K) (lines : List (List Nat)) :
+    Synth.synthesizeLines fx big voices iw ops f parseF parseL rate (lines.filter (· ≠ [])) =
+      Synth.synthesizeLines fx big voices iw ops f parseF parseL rate lines :=
+  Synth.synthesizeLines_filter_blank fx big voices iw ops f parseF parseL rate lines
 
 end Jb.C17
